@@ -13,6 +13,17 @@ CLAIMED = {
         note="Trusted: Lean kernel (+propext), hand transcription of label_references.rs (checked by correspondence), harness, renderer of skeleton bodies to Penne source.",
         technique="Lean 4 proof (mutual structural induction) + model/implementation correspondence",
         design="§4 C04"),
+    "C05": dict(
+        text="Lean model of the statement-level variable scoper (stack, duplicate detection, goto/label pruning) with theorems "
+             "for its decision logic (E402 iff unresolved, E482 iff resolved-to-pruned, duplicate iff visible on any layer) and "
+             "block scoping for all bodies (`Vars.block_scoped`, `Vars.goStmt_stack`: a statement only appends to the innermost "
+             "layer, a block restores the stack). Partial: the equivalence of the pruning with the positional/path reading is "
+             "not yet a theorem; it is checked three-way (real compiler vs model vs an independent must-declared CFG analysis) "
+             "on exhaustive small scopes and random bodies.",
+        note="Trusted: Lean kernel (+propext), transcription of variable_references.rs (checked by correspondence on the code multiset "
+             "{402,422,424,482}), the Python CFG oracle used for the E482 verdict, harness, renderer. Only label-correct bodies are evaluated.",
+        technique="Lean 4 proof (partial: decision logic + stack invariants) + three-way model/implementation/CFG-oracle correspondence",
+        design="§4 C05"),
     "C06": dict(
         text="Lean theorems `Place.placement_iff` and `Place.lint_iff`: for every statement tree the model of "
              "analyzer/syntax.rs (three mutable flags threaded exactly as in the Rust) raises exactly the E800/E801/E840 codes "
